@@ -360,7 +360,8 @@ def core_program(rng, ticks=True):
     g = Gen(rng, ticks=ticks, derived=False, forbid={"atom-key"})
     top = Scope()
     forms = []
-    templates = rng.sample(["adder", "count", "compose", "varsum", "internal", "apply", "shadowdef", "shadowdef", "plain", "plain", "plain"], rng.randint(3, 6))
+    templates = rng.sample(["adder", "count", "compose", "varsum", "internal", "apply", "shadowdef", "shadowdef", "shadowparam", "shadowparam", "plain", "plain", "plain"], rng.randint(3, 6))
+    globals_ = []
     for t in templates:
         if t == "adder":        # closures of order 3
             a, b, c = rng.sample(NAMES, 3)
@@ -414,6 +415,28 @@ def core_program(rng, ticks=True):
                 forms.append(define("toplevel-thunk", lam([], [var(gname)], defs=[(gname, quote(vsym("local")))])))
                 forms.append(app("list", app("toplevel-thunk"), var(gname)))
                 top.vars[gname] = "sym"
+        elif t == "shadowparam":
+            # parameters (fixed and rest) named like top-level variables: binding them on a call - with any number of
+            # arguments, zero included - must not touch the top-level bindings, which are read again at the end
+            k = rng.randint(0, 2)
+            names = rng.sample(NAMES, k + 1)
+            for nm in names:
+                if nm not in top.vars:
+                    forms.append(define(nm, quote(vsym("global-" + nm))))
+                    top.vars[nm] = "sym"
+                    globals_.append(nm)
+            fixed, rest = names[:k], (names[k] if rng.random() < 0.7 else "")
+            pname = g.fresh(top, PROCNAMES)
+            body = [app("list", *[var(n) for n in fixed], *([var(rest)] if rest else []))]
+            if rng.random() < 0.3:
+                body = [app(lam([], body))]        # read through a thunk created inside the call
+            forms.append(define(pname, lam(fixed, body, rest=rest)))
+            top.vars[pname] = "opaque"
+            for _ in range(rng.randint(1, 2)):
+                extra = rng.randint(0, 2) if rest else 0
+                args = [lit(rng.randint(0, 9)) for _ in range(k + extra)]
+                forms.append(app(pname, *args) if rng.random() < 0.6 else app("apply", var(pname), app("list", *args)))
+            forms.append(app("list", *[var(n) for n in names]))
         elif t == "apply":
             f, ty = g.lambda_(["int", "int"], "int", False, top, 2, True)
             forms.append(app("apply", f, app("list", lit(rng.randint(-5, 5)), lit(rng.randint(-5, 5)))))
@@ -426,6 +449,8 @@ def core_program(rng, ticks=True):
                 top.vars[name] = t_
             else:
                 forms.append(g.expr(rng.choice(["int", "list", "bool", "sym"]), top, rng.randint(2, 4)))
+    if globals_:
+        forms.append(app("list", *[var(n) for n in globals_]))
     return forms
 
 
